@@ -566,15 +566,26 @@ func (t *Terminal) handleKey(key rune) (line []string, ok bool) {
 		t.advanceCursor(visualLength(t.prompt))
 		t.setLine(t.line, t.pos)
 	case keyEnter:
-		strline := strings.TrimSpace(string(t.line))
 		// split string until queries terminated by ; (a ; inside a quoted
-		// literal or identifier is part of the query)
+		// literal or identifier, a raw string or a comment is part of the
+		// query: the text is read by the rules of the engine's scanner)
 		var queries []string
 		var quote rune
 		escaped := false
+		blockComment := false
 		begin := 0
 		for cur := 0; cur < len(t.line); cur++ {
 			switch c := t.line[cur]; {
+			case blockComment:
+				if c == '*' && cur+1 < len(t.line) && t.line[cur+1] == '/' {
+					blockComment = false
+					cur++
+				}
+			case quote == '`':
+				// raw string: no escapes
+				if c == '`' {
+					quote = 0
+				}
 			case quote != 0:
 				// the engine's scanner lets a backslash escape the next
 				// character of a literal, the closing quote included
@@ -586,15 +597,19 @@ func (t *Terminal) handleKey(key rune) (line []string, ok bool) {
 				case c == quote:
 					quote = 0
 				}
-			case c == '\'' || c == '"':
+			case c == '\'' || c == '"' || c == '`':
 				quote = c
+			case c == '/' && cur+1 < len(t.line) && t.line[cur+1] == '*':
+				blockComment = true
+				cur++
 			case c == 59:
 				queries = append(queries, strings.TrimSpace(string(t.line[begin:cur+1])))
 				begin = cur + 1
 			}
 		}
+		strline := strings.TrimSpace(string(t.line))
 		// if the last thing entered was a query terminator
-		if len(strline) == 0 || (quote == 0 && strline[len(strline)-1:] == ";") {
+		if len(strline) == 0 || (quote == 0 && !blockComment && strline[len(strline)-1:] == ";") {
 			// not sure what this is for
 			t.moveCursorToPos(len(t.line))
 			t.queue([]rune("\r\n"))
